@@ -202,11 +202,12 @@ Ltac int_setup nm1 cfg app si :=
 Theorem make_interest_noparams nm cfg sg si est :
   int_siginfo sg false = Ok (si, est) ->
   let nm1 := strip_digest nm in
+  existsb is_digest_comp nm1 = false ->
   int_len (int_rec nm1 cfg None None) 0 < two64 ->
   exists W, make_interest sha256 sign nm cfg None sg = Ok (mkEnc W [] nm1) /\ concat W = enc_elem (5, IV nm1 cfg None None None).
 Proof.
-  intros Hsi nm1 Hb. destruct (int_siginfo_unsigned _ _ _ Hsi) as [-> ->].
-  unfold make_interest. rewrite Hsi. cbn [bind]. rewrite int_name_false. fold nm1.
+  intros Hsi nm1 Hnd Hb. destruct (int_siginfo_unsigned _ _ _ Hsi) as [-> ->].
+  unfold make_interest. rewrite int_name_false. fold nm1. rewrite Hnd. cbn [negb andb]. rewrite Hsi. cbn [bind].
   change (mkInt (Some nm1) (ic_cbp cfg) (ic_mbf cfg) (ic_fh cfg) (option_map (fun x => x mod 4294967296) (ic_nonce cfg))
                 (ic_life cfg) (option_map (fun x => x mod 256) (ic_hop cfg)) None None None) with (int_rec nm1 cfg None None).
   pose proof (int_len_ok nm1 cfg None None 0) as Hil. change (0 <? 0) with false in Hil. cbv iota in Hil.
@@ -233,6 +234,14 @@ Proof.
 Qed.
 
 
+(* MakeInterest refuses a parameters digest in a name that gets no parameters *)
+Lemma make_interest_digest_free nm cfg sg e :
+  make_interest sha256 sign nm cfg None sg = Ok e -> existsb is_digest_comp (strip_digest nm) = false.
+Proof.
+  unfold make_interest. rewrite int_name_false. cbn [negb andb].
+  destruct (existsb is_digest_comp (strip_digest nm)); [discriminate|reflexivity].
+Qed.
+
 Lemma removelast_snoc {A} (l : list A) x : removelast (l ++ [x]) = l.
 Proof. apply removelast_last. Qed.
 
@@ -249,7 +258,7 @@ Theorem make_interest_params nm cfg a sg si est :
        exists W, make_interest sha256 sign nm cfg (Some a) sg = Ok (mkEnc W COV nmF) /\ concat W = enc_elem (5, IV nmF cfg (Some a) si svo)).
 Proof.
   intros Hsi pre Hb. pose proof (int_siginfo_est _ _ _ Hsi) as He252.
-  unfold make_interest. rewrite Hsi. cbn [bind]. rewrite int_name_true. fold pre.
+  unfold make_interest. cbn [negb andb]. rewrite Hsi. cbn [bind]. rewrite int_name_true. fold pre.
   set (nm1 := pre ++ [mkc 2 zeros32]) in *.
   change (mkInt (Some nm1) (ic_cbp cfg) (ic_mbf cfg) (ic_fh cfg) (option_map (fun x => x mod 4294967296) (ic_nonce cfg))
                 (ic_life cfg) (option_map (fun x => x mod 256) (ic_hop cfg)) (Some a) si None) with (int_rec nm1 cfg (Some a) si).
